@@ -42,7 +42,8 @@ def iau82(dq):
 def run(ctx):
     from pyorbital import astronomy
     ctx.rule = ("civil instants 1900-2100 (15% boundary dates: leap days, century years, year/day ends, "
-                "sub-second), in 5 time representations; distinct = distinct instants")
+                "sub-second), in 5 time representations; ns instants next to day boundaries; pairs; one array object advanced in place "
+                "between queries (4 steps, units s/ms/us/ns); distinct = distinct instants")
     ctx.assumptions += [
         "numpy maps civil dates to datetime64 ticks by the proleptic Gregorian day count (validated: Coq-evaluated civil_us vs np.datetime64 on every generated instant)",
         "binary64 rounding of the evaluation is not proved; sampled against the exact rational value (1e-9 day, 1e-7 rad)",
@@ -149,6 +150,50 @@ def run(ctx):
         if not (0.0 <= g < 2 * math.pi) or not abs(dd) <= 1e-7:
             ctx.violation("gmst differs from IAU-1982 by more than 1e-7 rad (or is outside [0, 2*pi))",
                           {"signature": "C12:iau-ns:%s" % tns, "instant": str(tns), "impl": g, "spec": ref, "diff": dd})
+    # ONE time-array object, advanced in place between queries (a time-stepping loop): the answer must follow the array's
+    # contents, not its identity or an earlier answer; and the functions must leave the array as they found it
+    for gi in range(ctx.n(6, 40)):
+        y, m, d = ctx.rng.randint(1900, 2099), ctx.rng.randint(1, 12), ctx.rng.randint(1, 28)
+        unit = ctx.rng.choice(["us", "us", "ns", "ms", "s"])
+        if unit == "ns":
+            y = ctx.rng.randint(1980, 2099)
+        t0 = np.datetime64(dt.datetime(y, m, d, ctx.rng.randrange(24), ctx.rng.randrange(60), ctx.rng.randrange(60)), unit)
+        times = t0 + (np.arange(3) * 3600).astype("timedelta64[s]").astype("timedelta64[%s]" % unit)
+        hist = []
+        for step_i in range(4):
+            ticks_before = times.astype("int64").copy()
+            ctx.case(("stepped", str(times[0]), unit, step_i))
+            try:
+                with common.time_limit(20):
+                    jd = np.asarray(astronomy.jdays(times), dtype=float).ravel()
+                    j2 = np.asarray(astronomy.jdays2000(times), dtype=float).ravel()
+                    g = np.asarray(astronomy.gmst(times), dtype=float).ravel()
+            except Exception as e:
+                ctx.violation("jdays/gmst raised %s" % type(e).__name__,
+                              {"signature": "C12:raise-stepped:%s" % type(e).__name__, "instant": str(times[0]), "in_place_steps_before": hist})
+                break
+            info = {"same_array_object_advanced_in_place_by": list(hist), "unit": unit}
+            if not np.array_equal(times.astype("int64"), ticks_before):
+                ctx.violation("jdays/jdays2000/gmst modified the caller's time array", {"signature": "C12:stepped:mutated:%s" % times[0], **info})
+                break
+            per = {"s": 1, "ms": 10**3, "us": 10**6, "ns": 10**9}[unit]
+            for k in range(len(times)):
+                jd_exact = Fraction(int(ticks_before[k]), 86400 * per) + Fraction(4881175, 2)
+                inst = str(times[k])
+                if not abs(Fraction(float(jd[k])) - jd_exact) <= Fraction(1, 10**9):
+                    ctx.violation("jdays differs from the civil-calendar Julian date by more than 1e-9 day",
+                                  {"signature": "C12:jd-stepped:%d:%s" % (step_i, inst), "instant": inst, **info, "impl": float(jd[k]), "spec": float(jd_exact)})
+                if not abs(Fraction(float(j2[k])) - (jd_exact - 2451545)) <= Fraction(1, 10**9):
+                    ctx.violation("jdays2000 differs from JD - 2451545.0 by more than 1e-9 day",
+                                  {"signature": "C12:j2000-stepped:%d:%s" % (step_i, inst), "instant": inst, **info, "impl": float(j2[k])})
+                ref = iau82(jd_exact - 2451545)
+                dd = (float(g[k]) - ref + math.pi) % (2 * math.pi) - math.pi
+                if not (0.0 <= g[k] < 2 * math.pi) or not abs(dd) <= 1e-7:
+                    ctx.violation("gmst differs from IAU-1982 by more than 1e-7 rad (or is outside [0, 2*pi))",
+                                  {"signature": "C12:iau-stepped:%d:%s" % (step_i, inst), "instant": inst, **info, "impl": float(g[k]), "spec": ref, "diff": dd})
+            step_s = ctx.rng.choice([86400, 10 * 86400, 3600, 61, 365 * 86400])
+            times += np.timedelta64(step_s, "s").astype("timedelta64[%s]" % unit)
+            hist.append("%d s" % step_s)
     # differences / rate on pairs
     for _ in range(ctx.n(100, 1000)):
         a, b = rand_instant(ctx.rng), rand_instant(ctx.rng)
